@@ -66,6 +66,12 @@ Theorem run_and_train_leave_data_alone_partial : forall s j label codes,
 Proof. exact run_train_readonly_l. Qed.
 Print Assumptions run_and_train_leave_data_alone_partial.
 
+(* the alias table as extracted from the current source: every derivation copies, every build constructs by-class components anew *)
+Theorem alias_table_as_required : from_pipeline_edges = Copy /\ build_wiring = Copy /\ dsb_init_schema = Copy /\ build_container_schema = Copy /\
+  build_instances_fresh = true /\ connect_creates_fresh = true /\ clear_inputs_fresh = true /\ clone_via_config = true.
+Proof. exact alias_table_l. Qed.
+Print Assumptions alias_table_as_required.
+
 (* regenerated scan of the source: no component __call__ assigns through an ItemList parameter, through a local bound
    to its contents without a copy, or calls an in-place method on either *)
 Theorem components_do_not_write_itemlists : itemlist_param_writes = [].
